@@ -1508,20 +1508,16 @@ class C17(SimpleSpec):
 
 
 
-C15_FINDINGS = {
-    "F-C15-table-cycle": ("implies itself", "table-cycle"),
-    "F-C15-table-shadow": ("Cannot specify multiple criteria", "table-shadow"),
-    "F-C15-too-many": ("was not Enough For Everyone", "many-criteria"),
-    "F-C15-peer-table-cycle": ("implies itself", "peer-table-cycle"),
-    "F-C15-peer-table-shadow": ("Cannot specify multiple criteria", "peer-table-shadow"),
-}
+# (the five table findings F-C15-* were repaired by /repo commit d01b4db; their witnesses stay in corpus/C15 as
+# regression cases and are expected to be REFUSED now)
+C15_FINDINGS = {}
 
 
 def classify_panic(case, detail):
     """a known finding is identified by the panic site (CriteriaMapper::new) AND the table
     that carries the defect; the local table takes precedence (it is built first)"""
     kinds = [f["kind"] for f in case.get("faults", [])]
-    for fid in ("F-C15-table-cycle", "F-C15-table-shadow", "F-C15-too-many", "F-C15-peer-table-cycle", "F-C15-peer-table-shadow"):
+    for fid in C15_FINDINGS:
         msg, fault = C15_FINDINGS[fid]
         if msg in detail and "src/criteria.rs" in detail and fault in kinds:
             if fid == "F-C15-table-cycle" and "loop-a" not in detail and "loop-b" not in detail:
@@ -1586,18 +1582,19 @@ class C15(SimpleSpec):
     model_imports = ["Base", "Extracted", "Criteria", "Validate"]
     coq_files = ["Properties/C15.v"]
     theorems = ["C15_undefined_reference_refused", "C15_every_indexed_site_is_checked", "C15_validated_store_does_not_index_unknown",
-                "C15_no_crash_partial", "C15_refuted_self_implication", "C15_refuted_cycle", "C15_refuted_builtin_redefined",
-                "C15_refuted_too_many_criteria", "C15_wildcard_end_cap"]
+                "C15_no_crash", "C15_self_implication_refused", "C15_cycle_refused", "C15_builtin_redefined_refused",
+                "C15_too_many_criteria_refused", "C15_peer_cycle_refused", "C15_wildcard_end_cap"]
     level_text = ("Theorems about the model of Store::validate's criteria checks and of every place a criteria name is indexed into the "
                   "mapper: a reference to an undefined criterion at any checked site is refused; every site that is indexed on the way "
                   "to a verdict (locked and unlocked) is checked — the list of checked sites is re-read from Store::validate by the "
                   "translator on every run, so removing a loop breaks the proof —; hence a validated store never reaches an index panic; "
-                  "own wildcard audits ending after the 12-month cap are refused. PARTIAL: C15_no_crash holds only for well-formed "
-                  "criteria tables; built-in redefinition, implication cycles and more than 64 criteria (local or peer tables) panic in "
-                  "CriteriaMapper::new and are not checked at load: C15_refuted_* witnesses, known findings F-C15-*, replayed every "
-                  "run. Text-level faults (truncation, wrong types, unknown fields) are below the model (toml/serde) and only exercised.")
+                  "own wildcard audits ending after the 12-month cap are refused; C15_no_crash (unconditional): for every store and every "
+                  "set of peer files the outcome is never a crash, because Store::validate also refuses an unusable criteria table "
+                  "(built-in redefined, implication cycle, more than 64 criteria) and a peer's unusable table is refused before a mapper "
+                  "is built from it — both facts re-read from the source; they were crashes (five findings) until the `fix:` commit "
+                  "d01b4db. Text-level faults (truncation, wrong types, unknown fields) are below the model (toml/serde) and only exercised.")
     level_note = ("Three crash sites of the unchanged tree (unknown criteria in trusted entries, criteria-map values, locked imports.lock) "
-                  "were repaired by a `fix:` commit and are now part of the proved statement. Peer files' own tables are outside the model.")
+                  "and five more (unusable local / peer criteria tables) were repaired by `fix:` commits and are now part of the proved statement.")
     design_ref = "DESIGN.md §4 C15"
     rule = ("well-formed generated stores with peers, subjected to 0-3 structural edits: a dangling criteria reference at each of the 11 "
             "reference sites, deleting a referenced definition, implication self-loop / 2-cycle, a criterion named like a built-in, "
@@ -1624,7 +1621,7 @@ class C15(SimpleSpec):
         mi = o["model_input"]
         b = lambda v: "true" if v else "false"  # noqa
         return (f"match load_outcome {b(mi['locked'])} {b(mi['shadows'])} {coq(mi['table'])} {coq(mi['max_end'])} {coq(mi['ends'])} "
-                f"{coq(mi['refs'])} with Refused => \"refused\" | Panics => \"panics\" | Proceeds => \"proceeds\" end")
+                f"{coq(mi['refs'])} {coq(mi.get('peers', []))} with Refused => \"refused\" | Panics => \"panics\" | Proceeds => \"proceeds\" end")
 
     def canon(self, text):
         if text.startswith("(outcome"):
